@@ -82,7 +82,7 @@ def rule_int_eval(chk):
                     if "panicking" in str(e):
                         bad = bad or "`%s` aborts the lexer (%s)" % (text, str(e)[:60])
                         continue
-                    return False
+                    return chk.unreadable("C10.lit/int/readable", "literal_int", e, where(li))
                 v = _written_int(d, radix)
                 if isinstance(r, I.Enum) and r.variant == "Ok":
                     rest, tok = r.fields["0"]
@@ -96,7 +96,7 @@ def rule_int_eval(chk):
                     if lo <= v <= hi:
                         bad = bad or "`%s` (= %d, fits) is refused" % (text, v)
                 else:
-                    return False
+                    return chk.unreadable("C10.lit/int/readable", "literal_int", "result %r" % (r,), where(li))
         chk.ob("C10.lit/int/" + radix, bad is None, "%d spellings x %d suffixes: exact value with the suffix's kind, or refused when it does not fit" % (len(spellings), len(INT_SUFFIX))
                if bad is None else bad, where(li), sample={"radix": radix, "spellings": len(spellings) * len(INT_SUFFIX)})
     chk.floor("C10.floor/int-spellings", n, 300, "integer spellings read", where(li))
@@ -139,7 +139,7 @@ def rule_float_eval(chk):
                     if "panicking" in str(e):
                         bad.setdefault("abort", "`%s` aborts the lexer (%s)" % (text, str(e)[:60]))
                         continue
-                    return False
+                    return chk.unreadable("C10.lit/float/readable", "literal_float", e, where(lf))
                 if not (isinstance(r, I.Enum) and r.variant == "Ok"):
                     bad.setdefault("refused", "`%s` is refused" % text)
                     continue
